@@ -177,7 +177,7 @@ def home_qname(ctx):
     cur = ctx
     for _ in range(12):
         f = cur.func
-        if f is None or not (f.name.startswith("_") and not f.name.startswith("__")) or cur.parent is None or cur.parent.func is None:
+        if f is None or not ((f.name.startswith("_") and not f.name.startswith("__")) or private_class(f)) or cur.parent is None or cur.parent.func is None:
             break
         cur = cur.parent
     return cur.qname
